@@ -164,6 +164,10 @@ def alPut {β : Type} (m : List (String × β)) (k : String) (v : β) : List (St
 def alDel {β : Type} (m : List (String × β)) (k : String) : List (String × β) :=
   m.filter (fun e => !(e.1 == k))
 
+/-- change the value stored under `k` in place (read, modify, put back) -/
+def alModify {β : Type} (m : List (String × β)) (k : String) (f : β → β) : List (String × β) :=
+  m.map (fun e => if e.1 == k then (e.1, f e.2) else e)
+
 def cmpHolds : Cmp → Int → Int → Bool
   | .eq, a, b => a == b
   | .ne, a, b => a != b
@@ -234,7 +238,13 @@ def setColl (st : State) (c : String) (x : Coll) : State := { st with named := a
 
 inductive Err where
   | emptyVector | invalidTopK | dimMismatch | notFound | collExists | collNotFound | unsupported
+  /-- `BatchValidationError` (an input of `batch_store_embeddings` has an empty vector) -/
+  | batchValidation
   deriving DecidableEq
+
+/-- `for (field, value) in metadata { tensor.set(meta:field, value) }` -/
+def mergeMeta (old new : List (String × Int)) : List (String × Int) :=
+  new.foldl (fun acc e => alPut acc e.1 e.2) old
 
 /-- state-changing operations -/
 inductive Op where
@@ -262,6 +272,12 @@ inductive Op where
   | cbuild (c : String)
   /-- `invalidate_hnsw_cache("_default")` (`none`) / `invalidate_hnsw_cache(c)` -/
   | invalidate (c : Option String)
+  /-- `update_metadata` (merge the given fields into the stored metadata) -/
+  | updateMeta (key : String) (md : List (String × Int))
+  /-- `remove_metadata_field` -/
+  | removeMetaField (key : String) (field : String)
+  /-- `batch_store_embeddings` (below `batch_parallel_threshold`: stored one after the other) -/
+  | batchStore (inputs : List (String × List Int))
 
 inductive Resp where
   | ok
@@ -352,6 +368,26 @@ def step (st : State) : Op → State × Resp
     ({ st with dflt := ⟨st.dflt.items, none⟩ }, .ok)
   | .invalidate (some c) =>
     (setColl st c ⟨(collOf st c).items, none⟩, .ok)
+  | .updateMeta key md =>
+    -- lib.rs:3361-3380: read the tensor, set every given `meta:` field, put it back.  The vector
+    -- is untouched and the cached index is NOT invalidated (it holds vectors only; filters are
+    -- always evaluated on the store).
+    if alHas st.dflt.items key then
+      ({ st with dflt := ⟨alModify st.dflt.items key (fun it => ⟨it.repr, mergeMeta it.md md⟩), st.dflt.cache⟩ }, .ok)
+    else (st, .err .notFound)
+  | .removeMetaField key field =>
+    -- lib.rs:3388-3398: `tensor.remove(meta:field)` (absent field: no change), put back; no invalidation
+    if alHas st.dflt.items key then
+      ({ st with dflt := ⟨alModify st.dflt.items key (fun it => ⟨it.repr, alDel it.md field⟩), st.dflt.cache⟩ }, .ok)
+    else (st, .err .notFound)
+  | .batchStore inputs =>
+    -- lib.rs:2876-2924: empty batch: nothing; every input is validated BEFORE anything is stored;
+    -- then `store_embedding` for each input in order (each one invalidates the cached index)
+    if inputs.isEmpty then (st, .okN 0)
+    else if inputs.any (fun e => e.2.isEmpty) then (st, .err .batchValidation)
+    else
+      ({ st with dflt := ⟨inputs.foldl (fun items e => alPut items e.1 (mkItem e.2 [])) st.dflt.items, none⟩ },
+        .okN inputs.length)
 
 def run : State → List Op → State
   | st, [] => st
@@ -477,6 +513,22 @@ def searchDefaultOld (st : State) (q : List Int) (k : Nat) : SearchOut :=
   else if k = 0 then .err .invalidTopK
   else if normSq q = 0 then .zeroQuery
   else searchCoreOld st.dflt .cosine q none k k
+
+/-- `total_needed.min(top_k)` with `total_needed = skip + limit.unwrap_or(top_k)` (lib.rs:3009-3012;
+    the additions saturate at `usize::MAX`, far above any value here) -/
+def pagedK (k skip : Nat) (limit : Option Nat) : Nat := min (skip + limit.getD k) k
+
+/-- `results.into_iter().skip(skip)` then `.take(limit)` when a limit is given (lib.rs:3020-3025) -/
+def pageOf {α : Type} (skip : Nat) (limit : Option Nat) (l : List α) : List α :=
+  match limit with
+  | some n => (l.drop skip).take n
+  | none => l.drop skip
+
+/-- `search_similar_paginated` (lib.rs:3002-3033): the inner `search_similar(query, pagedK ..)`;
+    the page handed out is `pageOf skip limit` of its answer (`skip + limit = 0` makes the inner
+    `top_k` zero: `InvalidTopK`) -/
+def searchPaged (st : State) (q : List Int) (k skip : Nat) (limit : Option Nat) : SearchOut :=
+  searchDefault st q (pagedK k skip limit)
 
 /-- `search_similar_with_metric` (never consults the cache; lib.rs:2049-2101) -/
 def searchMetric (st : State) (m : Metric) (q : List Int) (k : Nat) : SearchOut :=
